@@ -42,7 +42,7 @@ func NewTracker(typ ProcessType, owner keys.Address, signedEthTx []byte, name et
 
 func (t *Tracker) AddVote(addr keys.Address, index int64, vote bool) error {
 
-	if len(t.Witnesses) <= int(index) {
+	if index < 0 || len(t.Witnesses) <= int(index) {
 		return errTrackerInvalidVote
 	}
 
